@@ -255,6 +255,20 @@ def _args(nodes, env):
     return out
 
 
+_MUTATORS = ('append', 'appendleft', 'extend', 'pop', 'popleft', 'remove', 'clear', 'add', 'discard', 'update', 'insert', 'setdefault')
+
+
+def _owned(node, env):
+    """the mutable container (list, dict, set, deque, bytearray) that the environment of the fold holds under this name / attribute
+    text, or None"""
+    import collections
+    if env is None:
+        return None
+    k = node.id if isinstance(node, ast.Name) else norm(node) if isinstance(node, ast.Attribute) else None
+    v = env.get(k) if k is not None else None
+    return v if isinstance(v, (list, dict, set, bytearray, collections.deque)) else None
+
+
 class FoldStructError(NotConst):
     """the folded expression raises struct.error"""
 
@@ -275,6 +289,12 @@ def const(node, env=None):
         t = norm(node)
         if t in env:
             return env[t]
+        try:
+            base = const(node.value, env)
+        except NotConst:
+            base = None
+        if isinstance(base, FoldObject) and hasattr(base, node.attr):
+            return getattr(base, node.attr)         # attribute of an object the rule models
         raise NotConst(t)
     if isinstance(node, ast.Call) and env and norm(node) in env:
         return env[norm(node)]          # e.g. {'len(data)': 2}: case analysis over a call the rule has bounded
@@ -351,6 +371,9 @@ def const(node, env=None):
     if isinstance(node, ast.Call) and isinstance(node.func, ast.Attribute) and not node.keywords and env and \
             norm(node.func) in env.get('__calls__', ()):
         return env['__calls__'][norm(node.func)](*_args(node.args, env))  # a method the caller of the fold models
+    if isinstance(node, ast.Call) and isinstance(node.func, ast.Attribute) and not node.keywords and node.func.attr in _MUTATORS \
+            and _owned(node.func.value, env) is not None:
+        return getattr(_owned(node.func.value, env), node.func.attr)(*_args(node.args, env))    # a container the fold owns
     if isinstance(node, ast.Call) and isinstance(node.func, ast.Attribute) and not node.keywords:
         try:
             recv = const(node.func.value, env)
@@ -438,27 +461,70 @@ def fold_block(stmts, env):
             const(st.value, env)
             continue
         if isinstance(st, ast.Expr) and isinstance(st.value, ast.Call) and isinstance(st.value.func, ast.Attribute) and \
-                isinstance(st.value.func.value, ast.Name) and isinstance(env.get(st.value.func.value.id), FoldObject):
+                isinstance(st.value.func.value, (ast.Name, ast.Attribute)) and \
+                isinstance(env.get(st.value.func.value.id if isinstance(st.value.func.value, ast.Name) else norm(st.value.func.value)), FoldObject):
             const(st.value, env)
             continue
-        if isinstance(st, ast.Try) and not st.finalbody and not st.orelse:
-            # handlers for struct.error only: the one exception the evaluator itself can meet
-            hs = [h for h in st.handlers if h.type is not None and norm(h.type) == 'struct.error']
+        if isinstance(st, ast.Try):
+            # the exceptions the evaluator itself can meet: struct.error, KeyError, IndexError, ValueError (and a `raise` of one of them
+            # in the body); anything else the body does is not an exception here
+            def handler_for(kind):
+                for h in st.handlers:
+                    names = [norm(h.type)] if h.type is not None and not isinstance(h.type, ast.Tuple) else \
+                        [norm(e_) for e_ in h.type.elts] if h.type is not None else ['BaseException']
+                    if kind in names or (kind != 'struct.error' and ('LookupError' in names and kind in ('KeyError', 'IndexError')
+                                                                      or 'Exception' in names or 'BaseException' in names)):
+                        return h
+                return None
+
+            def run_handler(h, shown):
+                if h.name:
+                    env[h.name] = shown
+                return fold_block(h.body, env)
             try:
                 r = fold_block(st.body, env)
+                caught = None
             except FoldStructError as e:
-                if not hs:
-                    raise
-                if hs[0].name:
-                    env[hs[0].name] = str(e)
-                r = fold_block(hs[0].body, env)
-            else:
-                if r[0] == 'raise' and r[1].startswith('struct.error(') and hs:
-                    if hs[0].name:
-                        env[hs[0].name] = 'struct.error'
-                    r = fold_block(hs[0].body, env)
+                caught = ('struct.error', str(e))
+            except (KeyError, IndexError, ValueError) as e:
+                caught = (type(e).__name__, '%s: %s' % (type(e).__name__, e))
+            if caught is None and r[0] == 'raise':
+                for kind in ('struct.error', 'KeyError', 'IndexError', 'ValueError'):
+                    if r[1].startswith(kind + '(') or r[1] == kind:
+                        caught = (kind, kind)
+            if caught is not None:
+                h = handler_for(caught[0])
+                if h is None:
+                    if st.finalbody:
+                        rf = fold_block(st.finalbody, env)
+                        if rf[0] != 'fall':
+                            return rf
+                    if caught[0] == 'struct.error':
+                        raise FoldStructError(caught[1])
+                    raise {'KeyError': KeyError, 'IndexError': IndexError, 'ValueError': ValueError}[caught[0]](caught[1])
+                r = run_handler(h, caught[1])
+            elif r[0] == 'fall' and st.orelse:
+                r = fold_block(st.orelse, env)
+            if st.finalbody:
+                rf = fold_block(st.finalbody, env)
+                if rf[0] != 'fall':
+                    return rf
             if r[0] != 'fall':
                 return r
+            continue
+        if isinstance(st, ast.With):
+            # context managers (locks) have no effect on the values
+            r = fold_block(st.body, env)
+            if r[0] != 'fall':
+                return r
+            continue
+        if isinstance(st, ast.Break):
+            return ('break', None)
+        if isinstance(st, ast.Continue):
+            return ('continue', None)
+        if isinstance(st, ast.Expr) and isinstance(st.value, ast.Call) and isinstance(st.value.func, ast.Attribute) and \
+                _owned(st.value.func.value, env) is not None and st.value.func.attr in _MUTATORS:
+            const(st.value, env)
             continue
         if isinstance(st, ast.Assert):
             if not const(st.test, env):
@@ -484,15 +550,21 @@ def fold_block(stmts, env):
                     const(t.slice.upper, env) if t.slice.upper is not None else None,
                     const(t.slice.step, env) if t.slice.step is not None else None)]
             continue
-        if isinstance(st, ast.While) and not st.orelse:
-            if any(isinstance(x, (ast.Break, ast.Continue)) for x in ast.walk(st)):
-                raise NotConst('loop with break / continue')
+        if isinstance(st, ast.While):
             cycles = 0
+            broke = False
             while const(st.test, env):
                 cycles += 1
                 if cycles > 10000:
                     raise NotConst('loop does not end')
                 r = fold_block(st.body, env)
+                if r[0] == 'break':
+                    broke = True
+                    break
+                if r[0] not in ('fall', 'continue'):
+                    return r
+            if not broke and st.orelse:
+                r = fold_block(st.orelse, env)
                 if r[0] != 'fall':
                     return r
             continue
@@ -514,6 +586,9 @@ def fold_block(stmts, env):
                     env[t.value.id][const(t.slice, env)] = v
             elif isinstance(t, ast.Attribute) and isinstance(t.value, ast.Name) and t.value.id == 'self':
                 env[norm(t)] = v
+            elif isinstance(t, ast.Subscript) and not isinstance(t.slice, ast.Slice) and isinstance(t.value, ast.Attribute) and \
+                    isinstance(env.get(norm(t.value)), (bytearray, list, dict)):
+                env[norm(t.value)][const(t.slice, env)] = v
             else:
                 raise NotConst(norm(t))
         elif isinstance(st, ast.AugAssign) and isinstance(st.target, ast.Name) and type(st.op) in _BIN:
@@ -522,16 +597,27 @@ def fold_block(stmts, env):
             r = fold_block(st.body if const(st.test, env) else st.orelse, env)
             if r[0] != 'fall':
                 return r
-        elif isinstance(st, ast.For) and not st.orelse and isinstance(st.target, ast.Name):
-            # bounded iteration over a folded iterable (no break / continue inside)
-            if any(isinstance(x, (ast.Break, ast.Continue)) for x in ast.walk(st)):
-                raise NotConst('loop with break / continue')
+        elif isinstance(st, ast.For) and (isinstance(st.target, ast.Name) or (
+                isinstance(st.target, ast.Tuple) and all(isinstance(e, ast.Name) for e in st.target.elts))):
+            # bounded iteration over a folded iterable
             it = list(const(st.iter, env))
             if len(it) > 100000:
                 raise NotConst('loop too long')
+            broke = False
             for v in it:
-                env[st.target.id] = v
+                if isinstance(st.target, ast.Name):
+                    env[st.target.id] = v
+                else:
+                    for e, vv in zip(st.target.elts, v):
+                        env[e.id] = vv
                 r = fold_block(st.body, env)
+                if r[0] == 'break':
+                    broke = True
+                    break
+                if r[0] not in ('fall', 'continue'):
+                    return r
+            if not broke and st.orelse:
+                r = fold_block(st.orelse, env)
                 if r[0] != 'fall':
                     return r
         elif isinstance(st, ast.Raise):
